@@ -218,7 +218,8 @@ def emit : Handler := fun req => do
           | _ => false
       let singleNames : List String := schemasJ.filterMap fun (k, v) => if isSingleRefUnion v then some (rustName k) else none
       let wrapperNames : List String := schemasJ.filterMap fun (k, v) => if isNullableWrapper v then some (rustName k) else none
-      let classes := undefinedNames.map fun u => if addlTargets.contains u then "KnownAddlPropsRef" else if wrapperNames.contains u then "KnownNullableWrapper" else if singleNames.contains u then "KnownSingleRefUnion" else if ppTargets.contains u then "KnownPathItemParam" else ""
+      let classes := undefinedNames.map fun u => if addlTargets.contains u then "KnownAddlPropsRef" else if wrapperNames.contains u then "KnownNullableWrapper" else if singleNames.contains u then "KnownSingleRefUnion" else if ppTargets.contains u then "KnownPathItemParam"
+        else if typeDefs.any (fun d => d != u && d.toLower == u.toLower) then "KnownTypeNameCaseMismatch" else ""
       verdict false (if classes.contains "" then [] else classes.eraseDups) s!"mentioned but not defined: {undefinedNames}"
     else if !dupTypes.isEmpty then verdict false [] s!"defined more than once: {dupTypes}"
     else if !sizeCyc.isEmpty then verdict false [] s!"by-value containment cycle (infinite size): {sizeCyc.map (fun p => String.ofList p.1)}"
@@ -226,7 +227,11 @@ def emit : Handler := fun req => do
       -- attribute only when EVERY type on a Default cycle is explained by the spec-level edges of its schema
       let specEdges : List (String × String × String) := ((arr (fieldD inp "edges" (Json.arr #[]))).toOption.getD []).filterMap fun e => match e with
         | .arr #[.str a, .str k, .str b] => some (a, k, b) | _ => none
-      let classOf (n : String) : String :=
+      let specNameOf (rn : String) : String :=
+        match (specEdges.flatMap fun e => [e.1, e.2.2]).find? (fun sn => String.ofList (Oas3.Naming.toRustTypeName Oas3.Gen.prelude Oas3.Client.idTr sn.toList) == rn) with
+        | some sn => sn | none => rn
+      let classOf (rn : String) : String :=
+        let n := specNameOf rn
         -- a `disc` edge X→n makes n an allOf child of X (it inherits X's members)
         let ks := (specEdges.filter fun e => e.1 == n).map (·.2.1) ++ (if specEdges.any (fun e => e.2.1 == "disc" && e.2.2 == n) then ["allOf"] else [])
         if ks.contains "oneOf" || ks.contains "anyOf" then "KnownDefaultRecursionUnion"
